@@ -3,7 +3,7 @@ from . import supcommon as S
 
 OCAML = S.OCAML
 GO = S.GO
-FAMILIES = "timeout,startup,sdsender,mixed,gatefail,errs,earlyshutdown,slowstop".split(",")
+FAMILIES = "timeout,startup,sdsender,mixed,gatefail,errs,earlyshutdown,slowstop,shutdownfirst,neverreturn,lateerr".split(",")
 PROP = "props/C02.v"
 PROOFS = ["proofs/SupInv.v", "proofs/SupStop.v", "proofs/SupTrig.v", "proofs/SupGate.v", "proofs/SupOnce.v", "proofs/SupReload.v", "proofs/SupCensus.v", "proofs/SupProgress.v", "proofs/SupMeasure.v"]
 
